@@ -2,6 +2,7 @@
    concurrency.  Only statements; every proof is [exact <lemma>]. *)
 From AL Require Import Base.Str Proc.Sanitize Proc.ShellSel Proc.ExecOutcome Proc.ProcModel Proc.ProcProofs Proc.ProcOnce Proc.ProcExamples.
 From Coq Require Import ZArith Permutation.
+From AL Require Gen.GenSyncSites Proc.SyncSites.
 
 (* ---- placeholder replacement (sanitizeExpressionsInScript) ---- *)
 
@@ -136,3 +137,14 @@ Theorem C20_all_collected_old_refuted :
     In x (s_tasks st) /\ t_phase x <> PDone.
 Proof. exact all_collected_old_refuted. Qed.
 Print Assumptions C20_all_collected_old_refuted.
+
+(* the synchronisation operations of the source (re-listed on every run, Gen/GenSyncSites.v) are
+   exactly the ones the transition system was written from, in the same order, and in every
+   function each acquisition (Lock, RLock, Acquire, Add) has its release *)
+Theorem C20_sync_operations_as_modelled : GenSyncSites.sync_sites = SyncSites.expected.
+Proof. exact SyncSites.sync_sites_as_modelled. Qed.
+Print Assumptions C20_sync_operations_as_modelled.
+
+Theorem C20_sync_operations_balanced : SyncSites.balanced GenSyncSites.sync_sites = true.
+Proof. exact SyncSites.sync_sites_balanced. Qed.
+Print Assumptions C20_sync_operations_balanced.
